@@ -1,5 +1,5 @@
 """C23 — interactions follow the register, cutoff, custom matrix and SLM schedule (provenance clauses)."""
-from ..rules import adapter, step
+from ..rules import pure, adapter, step
 
 META = {
     "title": "Interactions follow the register, cutoff, custom matrix and SLM schedule",
@@ -28,3 +28,4 @@ def check(ctx):
     step.hamiltonian_refresh(ctx)
     step.step_sv(ctx)
     ctx.floor("INTERACT", 8)
+    pure.check(ctx, [], ["emu_mps.optimatrix.optimiser", "emu_mps.optimatrix.permutations"])
